@@ -29,6 +29,7 @@ type GameCfg struct {
 	Burn    *int     `json:"burn,omitempty"` // Meta.BurnCount (default 1; the engine burns one card per street whatever it says)
 	Deck    []string `json:"deck,omitempty"`    // configured deck (default: the variant's full deck)
 	Shuffle []string `json:"shuffle,omitempty"` // deck order to play (default: whatever Start() shuffled)
+	Passive bool     `json:"passive,omitempty"` // play the hand to the river without folds or all-ins
 }
 
 type GameOp struct {
@@ -560,6 +561,7 @@ func runGame(o *Out, rng *rand.Rand, n int, mode string, scope int, replay strin
 			cases++
 		}
 		startCases(o, rng)
+		cases += exactFitHands(o, rng)
 	}
 	return cases
 }
@@ -660,7 +662,7 @@ func playRandomHand(o *Out, rng *rand.Rand, cfg GameCfg, probeP float64) {
 		return
 	}
 	h.checkState()
-	passive := rng.Intn(5) == 0 // some hands are played to the river without folds/all-ins
+	passive := cfg.Passive || rng.Intn(5) == 0 // some hands are played to the river without folds/all-ins
 	for step := 0; step < 2000; step++ {
 		gs := h.g.GetState()
 		h.probe()
@@ -804,6 +806,31 @@ func startCases(o *Out, rng *rand.Rand) {
 	}
 	c.Hole, c.Req, c.Short = 4, 2, true
 	startHand(o, c, rng, 0)
+}
+
+// exactFitHands: the deck holds exactly players*hole+8 cards (the smallest deck Start accepts) and the hand
+// is played to the river: the deal must use every card of the deck and never run past it
+func exactFitHands(o *Out, rng *rand.Rand) int {
+	cases := 0
+	for _, sh := range []struct {
+		n, hole, req int
+		short        bool
+	}{{2, 2, 0, false}, {3, 2, 0, false}, {6, 2, 0, true}, {5, 4, 2, false}, {7, 4, 2, true}, {9, 2, 2, false}} {
+		c := GameCfg{Limit: "no", Hole: sh.hole, Req: sh.req, Short: sh.short, BB: 2, SB: 1, Passive: true}
+		if sh.short {
+			c.Table = 1
+		}
+		for k := 0; k < sh.n; k++ {
+			c.Bank = append(c.Bank, int64(40+rng.Intn(20)))
+		}
+		c.Dealer = rng.Intn(sh.n)
+		full := deckOf(sh.short)
+		rng.Shuffle(len(full), func(i, j int) { full[i], full[j] = full[j], full[i] })
+		c.Deck = full[:sh.n*sh.hole+8]
+		playRandomHand(o, rng, c, 0.1)
+		cases++
+	}
+	return cases
 }
 
 var _ = math.MaxInt64
